@@ -36,7 +36,7 @@ AWKWARD = {
 # labels whose string has leading / trailing white space (fidelity of those is reported under its own class)
 BLANK_EDGED = ('leading-blank', 'trailing-blank', 'trailing-newline')
 
-STATES = ('running', 'finished', 'failed', 'resource_wait', 'suspended', 'initialising')
+STATES = ('running', 'finished', 'failed', 'waiting_on_resource', 'suspended', 'initialising')
 EXIT = ('N/A', 'Success', 'Failed', 'Stopped', 'ResourceExhausted')
 
 
